@@ -4,6 +4,7 @@ CONSTANTS MaxBlock = 5 MaxOps = 9 MaxLen = 12
   Takes = {0, 1, 2}
   Srcs = {"iter", "list", "tuple"}
   SplitBufs <- SplitBufsThorough
+  Rets = {"gen", "fresh", "own", "iter", "tuple"}
   Variant = "intended"
 INVARIANT Emitted
 CHECK_DEADLOCK FALSE
